@@ -16,7 +16,7 @@ CLAIMS = {
   "note": LANG_NOTE,
   "technique": LANG_TECH},
  "C09": {
-  "text": 'Partial. Proved (Props/C09.v, 17, closed): with the recover at the rule entry point no rule execution of the model yields a panic (and without it `if 5 {}` does — so the recover is what contains it); every model function is total (termination by construction), a for loop evaluates its condition at most 10000 times; conc children never let a panic out; engine level: every entry point returns nil or an error for every configuration, runs the other rules as its error policy prescribes (hand_sound) and later calls are unaffected. Established by translator + observation: T1 (every fan-out child signals its WaitGroup on every path: goBody shape); fault matrix of 31 fault classes x 17 construct positions (+ forRange / unbounded-loop / unassignable-target shapes) whose predicted outcome (value / error with cited positions) must be what the call returned, and 660 engine calls (21 entry points x 5 faulty rule kinds x 4 positions x flags) in child processes. Observed, not proved: that the real process does not crash or hang.',
+  "text": 'Partial. Proved (Props/C09.v, 17, closed): with the recover at the rule entry point no rule execution of the model yields a panic (and without it `if 5 {}` does — so the recover is what contains it); every model function is total (termination by construction), a for loop evaluates its condition at most 10000 times; conc children never let a panic out; engine level: every entry point returns nil or an error for every configuration, runs the other rules as its error policy prescribes (hand_sound) and later calls are unaffected. Established by translator + observation: T1 (every fan-out child signals its WaitGroup on every path: goBody shape); fault matrix of 31 fault classes x 21 construct positions (+ forRange / unbounded-loop / unassignable-target shapes) whose predicted outcome (value / error with cited positions) must be what the call returned, and 660 engine calls (21 entry points x 5 faulty rule kinds x 4 positions x flags) in child processes. Observed, not proved: that the real process does not crash or hang.',
   "note": LANG_NOTE,
   "technique": LANG_TECH},
  "C18": {
@@ -56,7 +56,7 @@ CLAIMS = {
   "note": POOL_NOTE,
   "technique": POOL_TECH},
  "C16": {
-  "text": 'Theorems (Props/C16.v, 10, closed): for ANY sequence of full/incremental updates, removals, clears, model changes and non-compiling texts, the master copy and EVERY instance hold exactly the denoted rule set (invariant of C08 each), cleared flag and model as denoted, queries agree, failed operations change nothing, clear followed by full or incremental update restores service. Tie: T3 update shapes + 42 histories (all sequences of length <= 2 over 5 operation kinds + random), after every operation: master and per-instance containers by reflection, all queries, and an execution forced onto every instance (max held requests).',
+  "text": 'Theorems (Props/C16.v, 16, closed): for ANY sequence of full/incremental updates, removals, clears, model changes and non-compiling texts, the master copy and EVERY instance hold exactly the denoted rule set (invariant of C08 each), cleared flag and model as denoted, queries agree, failed operations change nothing, clear followed by full or incremental update restores service; and — the execution MODEL in use made observable (Pool/Compose.v) — with a rule that always fails in the set, the result an execution hands back is the one Engine/Spec.v assigns to the denoted model on the denoted set: sort / concurrent return the non-failing rules, mix returns nothing when the top rule fails, the models are told apart (C16_sort_and_mix_models_are_told_apart). Tie: T3 update shapes + ~95 histories (all sequences of length <= 2 over 5 operation kinds, resubmitted texts, emptied-then-cleared pools, lexer-noise texts, the failing probe rule as top / middle / lowest rule under each of the 4 models, random), after every operation: master and per-instance containers and index maps by reflection, all queries, an execution forced onto every instance through the sort-model wrapper AND one through the *SpecifiedEM wrapper (max held requests each), compared inside Coq with the model of the history.',
   "note": POOL_NOTE,
   "technique": POOL_TECH},
  "C17": {
